@@ -126,6 +126,20 @@ impl IsaGen {
                     alts.push(SubAlt { op: POp::Param { name: "v".into(), ty: ty2 }, prod: var("v"), size });
                 }
             }
+            if crate::engine::gen_version() >= 2 && si > 0 && t.chance(1, 3) {
+                // v2: an alternative that is itself an operand of an EARLIER sub-rule (nested sub-rules)
+                let sj = t.below(si);
+                let size_j = isa.subrules[sj].alts[0].size;
+                let q = var("q");
+                let prod = if size_j == size {
+                    q
+                } else if size_j < size {
+                    concat_all(vec![sized_lit(t.draw(2) as u64, size - size_j), q])
+                } else {
+                    E::SliceShort(Box::new(q), Box::new(lit_of(size as u64)))
+                };
+                alts.push(SubAlt { op: POp::Param { name: "q".into(), ty: PType::Sub(sj) }, prod, size });
+            }
             isa.subrules.push(SubRule { name: SUBNAMES[si].to_string(), alts });
         }
         // rules
